@@ -205,3 +205,6 @@ package core
 //@ func (*listener).serve
 //@   before return#1 assert err == mangos.ErrClosed
 //@   before return#2 assert at("call:Unlock#1", l.closed)
+//@
+//@ func (*pipeIDAllocator).Get
+//@   before return#1 assert ((p.next + 4294967295) % 4294967296) % 2147483648 == id
